@@ -7,7 +7,6 @@ package c12
 import (
 	"bytes"
 	"fmt"
-	"os"
 	"testing"
 	"time"
 
@@ -417,5 +416,5 @@ func TestCheck(t *testing.T) {
 	r.Count("scenarios", int64(len(list)))
 	r.Sample(map[string]interface{}{"scenario": list[0].String()})
 	r.Sample(map[string]interface{}{"scenario": list[len(list)/2].String()})
-	os.Exit(r.Finish(50))
+	h.Exit(r.Finish(50))
 }
